@@ -1213,7 +1213,33 @@ fn evaluate_scalar_func(
             let arr = evaluated_args
                 .first()
                 .ok_or_else(|| QueryError::InvalidArgument("ABS requires 1 argument".into()))?;
-            apply_math_unary_preserve_int(arr, |x| x.abs(), |x| x.abs())
+            // |MIN| is not representable: raise instead of overflowing
+            // (panic in debug builds, MIN returned in release builds).
+            if let Some(int_arr) = arr.as_any().downcast_ref::<Int64Array>() {
+                let mut out: Vec<Option<i64>> = Vec::with_capacity(int_arr.len());
+                for v in int_arr.iter() {
+                    out.push(match v {
+                        Some(x) => Some(x.checked_abs().ok_or_else(|| {
+                            QueryError::Execution(format!("ABS: value {x} is out of range"))
+                        })?),
+                        None => None,
+                    });
+                }
+                return Ok(Arc::new(Int64Array::from(out)));
+            }
+            if let Some(int_arr) = arr.as_any().downcast_ref::<Int32Array>() {
+                let mut out: Vec<Option<i32>> = Vec::with_capacity(int_arr.len());
+                for v in int_arr.iter() {
+                    out.push(match v {
+                        Some(x) => Some(x.checked_abs().ok_or_else(|| {
+                            QueryError::Execution(format!("ABS: value {x} is out of range"))
+                        })?),
+                        None => None,
+                    });
+                }
+                return Ok(Arc::new(Int32Array::from(out)));
+            }
+            apply_math_unary_preserve_int(arr, |x| x.abs(), |x| x.wrapping_abs())
         }
 
         ScalarFunction::Ceil => {
